@@ -318,6 +318,146 @@ func (g *gen) tagsScenario(w *world) {
 	}
 }
 
+// The binding to the peer instance is a property of the conversation object, not of one private conversation held
+// through it: once instance A has been learnt, it survives every lifecycle step (End by the local user, the peer's
+// disconnect, a refreshed key exchange, a key exchange that fails half way, time passing, an error message). After
+// the steps a stranger's well-formed traffic (valid sender tag other than A's, addressed to this instance or to nobody)
+// is ignored - no plaintext, no reply, no state change - and instance A can still start a new private conversation.
+func (g *gen) bindingLifecycleScenario(w *world) {
+	w.parties = map[string]*party{}
+	w.dead = false
+	btag := 0x100 + g.r.Uint32()%0xfffffe00
+	if g.r.Intn(3) == 0 {
+		btag = 0 // drawn during the key exchange
+	}
+	a := w.newParty(partyCfg{policies: 4, keyIdx: 0, errh: g.r.Intn(2) == 0, tag: 0x100 + g.r.Uint32()%0xfffffe00, fragSize: []int{0, 0, 0, 200}[g.r.Intn(4)]})
+	b := w.newParty(partyCfg{policies: 4, keyIdx: 1, errh: g.r.Intn(2) == 0, tag: btag})
+	l := &link{w: w, a: a, b: b}
+	g.dist["tags:lifecycle"]++
+	// the conversation learns the peer instance: a complete key exchange, started by either side
+	if g.r.Intn(2) == 0 {
+		l.enqueue(a, []otr3.ValidMessage{w.query(a)})
+	} else {
+		l.enqueue(b, []otr3.ValidMessage{w.query(b)})
+	}
+	l.settle(200)
+	peer := otr3.VerifSnapshot(a.c).OurTag
+	own := otr3.VerifSnapshot(b.c).OurTag
+	if w.dead || !a.c.IsEncrypted() || !b.c.IsEncrypted() || peer < 0x100 || own < 0x100 || b.c.GetTheirInstanceTag() != peer {
+		g.dist["tags:lifecycle:setup-incomplete"]++
+		return
+	}
+	steps := ""
+	nsteps := 1 + g.r.Intn(3)
+	for i := 0; i < nsteps && !w.dead; i++ {
+		step := g.r.Intn(7)
+		name := ""
+		switch step {
+		case 0, 1: // the local user ends the conversation (in whatever state it is); the disconnect message arrives or is lost
+			name = "End"
+			ts, _ := w.end(b)
+			if g.r.Intn(2) == 0 {
+				name = "End(disconnect delivered)"
+				l.enqueue(b, ts)
+				l.settle(50)
+			}
+		case 2: // the peer leaves
+			name = "peer-disconnect"
+			ts, _ := w.end(a)
+			l.enqueue(a, ts)
+			l.settle(50)
+		case 3: // the peer refreshes the conversation (or starts a new one)
+			name = "refresh"
+			w.tick(75) // (a query that follows a state change within a minute is not answered)
+			l.enqueue(a, []otr3.ValidMessage{w.query(a)})
+			l.settle(200)
+		case 4: // a key exchange with the peer that fails half way: the rest is lost, something unparsable arrives in its place
+			name = "failed-exchange"
+			w.tick(75)
+			l.enqueue(a, []otr3.ValidMessage{w.query(a)})
+			l.settle(1 + g.r.Intn(2))
+			l.qab, l.qba = nil, nil
+			w.recv(b, tagMsg(4+g.r.Intn(2), peer, []uint32{0, own}[g.r.Intn(2)], g))
+		case 5:
+			name = "time-passes"
+			w.tick([]int{75, 120, 3600}[g.r.Intn(3)])
+		case 6:
+			name = "error-message"
+			w.recv(b, []byte("?OTR Error: something went wrong"))
+		}
+		g.dist["tags:lifecycle:step:"+name]++
+		if steps != "" {
+			steps += ", "
+		}
+		steps += name
+		olog.ok("C15")
+		if got := b.c.GetTheirInstanceTag(); got != peer {
+			olog.viol("C15", "peer-binding-lost-over-lifecycle", fmt.Sprintf("the conversation (own instance %#x) had completed a key exchange with peer instance %#x; after [%s] GetTheirInstanceTag() = %#x", own, peer, steps, got))
+		}
+	}
+	// a stranger: another client of the peer's account, or somebody else altogether
+	for trial, trials := 0, 2+g.r.Intn(3); trial < trials && !w.dead; trial++ {
+		s := []uint32{0x100, 0x12345678, own, 0xffffffff, 0x100 + g.r.Uint32()%0xfffffe00}[g.r.Intn(5)]
+		if s == peer {
+			s = peer ^ 0x1000
+		}
+		r := []uint32{0, own}[g.r.Intn(2)]
+		kind := []int{0, 1, 1, 2, 2, 3, 4}[g.r.Intn(7)]
+		m := tagMsg(kind, s, r, g)
+		before := otr3.VerifSnapshot(b.c)
+		plain, ts, rerr, pan := w.recv(b, m)
+		if pan {
+			olog.viol("C13", "receive-panics", fmt.Sprintf("Receive panicked on a message with tags %x/%x", s, r))
+			return
+		}
+		after := otr3.VerifSnapshot(b.c)
+		g.dist[fmt.Sprintf("tags:lifecycle:stranger-kind-%d", kind)]++
+		olog.ok("C15")
+		if plain != nil || len(ts) > 0 || snapDiff(before, after) != "no-visible-state-change" {
+			to := ""
+			for _, t := range ts {
+				if xo, xt, xok := otr3.ExtractInstanceTags(t); xok {
+					to += fmt.Sprintf(" (reply from %#x to %#x)", xt, xo)
+				}
+			}
+			olog.viol("C15", "foreign-instance-not-ignored:after-lifecycle", fmt.Sprintf("the conversation (own instance %#x) had learnt peer instance %#x; after [%s] a message of kind %d from instance %#x to %#x is not ignored: plain=%v replies=%d%s err=%v change=%s, peer instance now %#x; message %.70q",
+				own, peer, steps, kind, s, r, plain != nil, len(ts), to, rerr, snapDiff(before, after), after.TheirTag, m))
+		}
+	}
+	if w.dead {
+		return
+	}
+	// the peer instance starts a new private conversation (everything still in flight is lost)
+	// (later than a minute after the last step: a query that follows a state change faster is not answered)
+	l.qab, l.qba = nil, nil
+	w.tick(3600)
+	l.enqueue(a, []otr3.ValidMessage{w.query(a)})
+	l.settle(200)
+	olog.ok("C15")
+	fa, fb := otr3.VerifSnapshot(a.c), otr3.VerifSnapshot(b.c)
+	if w.dead {
+		return
+	}
+	if !a.c.IsEncrypted() || !b.c.IsEncrypted() || fb.TheirTag != peer || fa.TheirTag != own {
+		olog.viol("C15", "genuine-peer-locked-out:after-lifecycle", fmt.Sprintf("peer instance %#x, to which the conversation (own instance %#x) was bound, cannot start a new private conversation after [%s] and a stranger's traffic: encrypted %v/%v, the conversation is bound to %#x, the peer to %#x",
+			peer, own, steps, a.c.IsEncrypted(), b.c.IsEncrypted(), fb.TheirTag, fa.TheirTag))
+		return
+	}
+	ts, err := w.send(a, []byte("probe-after-lifecycle"))
+	if err == nil {
+		got := false
+		for _, t := range ts {
+			p, _, _, _ := w.recv(b, t)
+			if string(p) == "probe-after-lifecycle" {
+				got = true
+			}
+		}
+		if !got && !w.dead {
+			olog.viol("C15", "genuine-peer-locked-out:after-lifecycle", fmt.Sprintf("after [%s] and a stranger's traffic the message of peer instance %#x in the new private conversation is not delivered", steps, peer))
+		}
+	}
+}
+
 // own tag generation when the randomness source keeps producing values below 0x100
 func (g *gen) ownTagScenario(w *world) {
 	w.parties = map[string]*party{}
@@ -389,6 +529,10 @@ func init() {
 			}
 			xtags(w, []byte("?OTR:"))
 			xtags(w, []byte("?OTR:AAIDAAAA."))
+		}
+		// (appended after the random part above: the traces of the scenarios above stay what they were)
+		for i := 0; i < n; i++ {
+			g.bindingLifecycleScenario(w)
 		}
 		extra["panics"] = panicCount
 		olog.export(extra)
